@@ -32,7 +32,9 @@ pub struct C04Job {
     pub policy: BasePolicy,
     pub bound: usize,
     /// After recovery from a crash at the end of the first workload, run this and crash again.
-    pub second: Vec<HOp>,
+    /// Workloads for the second crash/restart cycle (each runs on its own copy of the recovered cache).
+    #[serde(default)]
+    pub seconds: Vec<Vec<HOp>>,
 }
 
 pub struct C04Prop;
@@ -356,8 +358,21 @@ fn run_job(job: &C04Job, res: &mut ShardResult, seen: &mut Seen, deadline: Insta
                 } else {
                     let mut cs = judge_reads(&r.world, 0, &exp, &c.desc, clean_free);
                     // Crash/restart depth 2: continue on the recovered cache, crash again at the end.
-                    if cs.is_empty() && !job.second.is_empty() && c.t == t_end {
-                        cs.extend(second_cycle(job, r, &hist, res));
+                    if cs.is_empty() && c.t == t_end {
+                        let mut r = Some(r);
+                        for second in job.seconds.iter() {
+                            let rr = match r.take() {
+                                Some(r) => r,
+                                None => disk::reopen_and_read(&job.cfg, &c.image, &universe, "after-crash"),
+                            };
+                            if rr.open_error.is_some() {
+                                continue;
+                            }
+                            cs.extend(second_cycle(job, second, rr, &hist, &exp, res));
+                            if !cs.is_empty() {
+                                break;
+                            }
+                        }
                     }
                     complaints.extend(cs);
                 }
@@ -395,13 +410,13 @@ fn run_job(job: &C04Job, res: &mut ShardResult, seen: &mut Seen, deadline: Insta
 
 /// Second crash/restart cycle: run `job.second` on the recovered cache, crash at its end (all
 /// in-flight subsets), recover again; versions written after the restart must win.
-fn second_cycle(job: &C04Job, mut r: disk::Reopened, first: &History, res: &mut ShardResult) -> Vec<(String, String)> {
+fn second_cycle(job: &C04Job, second: &[HOp], mut r: disk::Reopened, first: &History, first_exp: &Expect, res: &mut ShardResult) -> Vec<(String, String)> {
     let w = &mut r.world;
     // Continue version numbering after the first cycle.
     w.hist.lock().unwrap().next_ver = first.next_ver.clone();
     let base = disk::capture(&w.dir);
     let log0 = w.io.log_len();
-    for (i, op) in job.second.iter().enumerate() {
+    for (i, op) in second.iter().enumerate() {
         w.issue(10_000 + i, op);
         w.quiesce();
     }
@@ -425,13 +440,26 @@ fn second_cycle(job: &C04Job, mut r: disk::Reopened, first: &History, res: &mut 
         h2.leaves = hist2.leaves.clone();
         let mut exp = expectation(&h2, &cfg, c.t);
         exp.inserted = expectation(&merged, &cfg, c.t).inserted;
+        // Keys the second workload does not write keep what the first cycle had acknowledged before its crash:
+        // their latest write or delete is still the acknowledged one (no block is reclaimed in these runs).
+        let touched: HashSet<u64> = hist2.writes.iter().map(|w| w.key).collect();
+        for (k, f) in first_exp.floor.iter() {
+            if !touched.contains(k) {
+                exp.floor.insert(*k, *f);
+            }
+        }
+        for k in first_exp.miss_ok.iter() {
+            if !touched.contains(k) {
+                exp.miss_ok.insert(*k);
+            }
+        }
         let rr = disk::reopen_and_read(&cfg, &c.image, &universe, "after-second-crash");
         res.add("recoveries", 1);
         res.add("second_cycle_images", 1);
         if let Some(e) = &rr.open_error {
             out.push(("Z.reopen-failed".into(), format!("second cycle, {}: {e}", c.desc)));
         } else {
-            out.extend(judge_reads(&rr.world, 0, &exp, &format!("second crash/restart cycle, {}", c.desc), true));
+            out.extend(judge_reads(&rr.world, 0, &exp, &format!("second crash/restart cycle [{}], {}", prog_text(second), c.desc), true));
         }
         if !out.is_empty() {
             break;
@@ -474,8 +502,14 @@ fn jobs(tier: Tier) -> Vec<C04Job> {
                         prog: prog.clone(),
                         policy: *policy,
                         bound: *bound,
-                        second: if matches!(policy, Eager) {
-                            vec![HOp::Ins { k: 1, sz: 100, loc: Loc::Default }, HOp::Fill { n: 1 }, HOp::Wait]
+                        seconds: if matches!(policy, Eager) {
+                            vec![
+                                vec![HOp::Ins { k: 1, sz: 100, loc: Loc::Default }, HOp::Fill { n: 1 }, HOp::Wait],
+                                // leaves k1 alone: what the first cycle acknowledged for it must survive a
+                                // second session that only appends to the tombstone log / writes another key
+                                vec![HOp::Rm { k: 2 }, HOp::Wait],
+                                vec![HOp::Ins { k: 2, sz: 100, loc: Loc::Default }, HOp::Fill { n: 1 }, HOp::Wait],
+                            ]
                         } else {
                             vec![]
                         },
@@ -554,7 +588,7 @@ impl Prop for C04Prop {
     }
 
     fn rule(&self) -> String {
-        "Enumerator K over Engine V: workloads = every sequence of 4 (quick) / up to 5 (thorough) calls over {insert k1 small, insert k1 2-page, insert k2, remove k1, wait} containing an insert and a wait, x both policies x tombstone log on/off, on 8 x 16 KiB blocks (nothing is reclaimed), executed under Eager/LazyIo/Alternate schedules (thorough: all schedules within 1 deviation). For every execution: every crash instant (each device-write submission or completion) x every subset of the writes in flight at that instant applied in full x page-granular tears of one in-flight write (all proper page subsets up to 4 pages). Each distinct (image, acknowledgement state) is reopened with the real builder (quiet recovery) and all keys are read. Oracle: reopen succeeds; every key reads as a miss or a version really inserted for it; a key whose latest insert/delete was acknowledged (a wait() first polled after it reached the write queue completed before the crash) reads that version or newer (delete with tombstone log: no version up to the deleted one); after a second workload + crash on the recovered cache, post-restart versions win. distinct = distinct (image bytes, acknowledgement floor).".into()
+        "Enumerator K over Engine V: workloads = every sequence of 4 (quick) / up to 5 (thorough) calls over {insert k1 small, insert k1 2-page, insert k2, remove k1, wait} containing an insert and a wait, x both policies x tombstone log on/off, on 8 x 16 KiB blocks (nothing is reclaimed), executed under Eager/LazyIo/Alternate schedules (thorough: all schedules within 1 deviation). For every execution: every crash instant (each device-write submission or completion) x every subset of the writes in flight at that instant applied in full x page-granular tears of one in-flight write (all proper page subsets up to 4 pages). Each distinct (image, acknowledgement state) is reopened with the real builder (quiet recovery) and all keys are read. Oracle: reopen succeeds; every key reads as a miss or a version really inserted for it; a key whose latest insert/delete was acknowledged (a wait() first polled after it reached the write queue completed before the crash) reads that version or newer (delete with tombstone log: no version up to the deleted one); after a second workload (three variants: rewrite k1; delete k2 only; insert k2 only) + crash on the recovered cache, post-restart versions win and keys the second session did not write keep what was acknowledged in the first. distinct = distinct (image bytes, acknowledgement floor).".into()
     }
 
     fn assumptions(&self) -> Vec<String> {
@@ -615,8 +649,21 @@ fn replay_schedule(job: &C04Job, choices: &[u32], res: &mut ShardResult, seen: &
             cs.push(("Z.reopen-failed".to_string(), format!("{}: {e}", c.desc)));
         } else {
             cs = judge_reads(&r.world, 0, &exp, &c.desc, clean_free);
-            if cs.is_empty() && !job.second.is_empty() && c.t == t_end {
-                cs.extend(second_cycle(job, r, &hist, res));
+            if cs.is_empty() && c.t == t_end {
+                let mut r = Some(r);
+                for second in job.seconds.iter() {
+                    let rr = match r.take() {
+                        Some(r) => r,
+                        None => disk::reopen_and_read(&job.cfg, &c.image, &universe, "after-crash"),
+                    };
+                    if rr.open_error.is_some() {
+                        continue;
+                    }
+                    cs.extend(second_cycle(job, second, rr, &hist, &exp, res));
+                    if !cs.is_empty() {
+                        break;
+                    }
+                }
             }
         }
         for (clause, msg) in cs {
